@@ -49,6 +49,7 @@ var scanRules = map[string]scanRule{
 	"trivia-siblings":  func(a *scandfa.Analysis) []*report.RuleResult { return []*report.RuleResult{a.TriviaSiblings()} },
 	"newline-symmetry": func(a *scandfa.Analysis) []*report.RuleResult { return []*report.RuleResult{a.NewlineSymmetry()} },
 	"idx-guard":        func(a *scandfa.Analysis) []*report.RuleResult { return []*report.RuleResult{a.IdxGuard()} },
+	"no-rescan":        func(a *scandfa.Analysis) []*report.RuleResult { return []*report.RuleResult{a.NoRescan()} },
 	"eof-final":        func(a *scandfa.Analysis) []*report.RuleResult { return []*report.RuleResult{a.EofFinal()} },
 	"progress":         func(a *scandfa.Analysis) []*report.RuleResult { return []*report.RuleResult{a.Progress()} },
 }
@@ -125,7 +126,7 @@ func init() {
 	properties["SC"] = &Property{ // development aid: every scanner rule at once (not registered in the manifest)
 		Level: "other", Engine: "scandfa",
 		Run: func(c *Ctx) {
-			c.scanRun("token-rules", "newline-action", "newline-siblings", "newline-symmetry", "case-fold", "trivia-stay", "trivia-siblings", "idx-guard", "progress", "eof-final")
+			c.scanRun("token-rules", "newline-action", "newline-siblings", "newline-symmetry", "case-fold", "trivia-stay", "trivia-siblings", "idx-guard", "progress", "eof-final", "no-rescan")
 			c.ssaScan("pred-pure", "buf-readonly", "scanner-helpers")
 		},
 	}
@@ -186,11 +187,11 @@ func init() {
 	delete(notApplicable, "C01")
 	properties["C01"] = &Property{
 		Level:     "other",
-		LevelText: "Structural necessary conditions, each decided for all code it applies to: (buf-readonly) no instruction of the parsing packages writes an element of a byte slice that is not local storage, nor hands one to a callee outside the reviewed read-only set - this clause ('the caller's buffer is left unchanged') is decided completely; (cb-guard) every call of the optional error callback is dominated by a nil test; (idx-guard) every index or slice expression on the input buffer, the scanner's call stack and the line table in internal/scanner is implied in range by its dominating conditions plus the scanner invariants (0 <= ts <= te <= len, p < len inside Lex, the dataflow bounds on p-ts and te-ts), by a small linear prover; the call-stack invariant 0 <= top <= len(stack) is shown inductive over every write of the two fields and the post-condition of growCallStack (top < len(stack)) is proved from its body, not assumed; (progress) the graph of token steps that may consume nothing is acyclic, so the scanner advances by at least one byte per bounded number of steps and Lex returns at most len+1 tokens; (pred-pure) transition conditions do not move the cursor; (nil-in-list, linear) grammar actions cannot put nil into a list or index a possibly-empty list; (assert-safe) every single-value type assertion an action applies to a right-hand-side value is reached only on paths that have established that the value is non-nil and of the asserted type whenever the productions of that symbol can yield nil or another type; the parser driver is the stock goyacc driver, whose error recovery shifts `error`, discards a token or aborts (tables-sync/skeleton-sync). Not decided: time proportional to input length beyond the progress argument (per-token work such as NewLines.GetLine's backward scan), Go stack depth on deeply nested input, memory.",
+		LevelText: "Structural necessary conditions, each decided for all code it applies to: (buf-readonly) no instruction of the parsing packages writes an element of a byte slice that is not local storage, nor hands one to a callee outside the reviewed read-only set - this clause ('the caller's buffer is left unchanged') is decided completely; (cb-guard) every call of the optional error callback is dominated by a nil test; (idx-guard) every index or slice expression on the input buffer, the scanner's call stack and the line table in internal/scanner is implied in range by its dominating conditions plus the scanner invariants (0 <= ts <= te <= len, p < len inside Lex, the dataflow bounds on p-ts and te-ts), by a small linear prover; the call-stack invariant 0 <= top <= len(stack) is shown inductive over every write of the two fields and the post-condition of growCallStack (top < len(stack)) is proved from its body, not assumed; (progress) the graph of token steps that may consume nothing is acyclic, so the scanner advances by at least one byte per bounded number of steps and Lex returns at most len+1 tokens; (pred-pure) transition conditions do not move the cursor; (nil-in-list, linear) grammar actions cannot put nil into a list or index a possibly-empty list; (assert-safe) every single-value type assertion an action applies to a right-hand-side value is reached only on paths that have established that the value is non-nil and of the asserted type whenever the productions of that symbol can yield nil or another type; the parser driver is the stock goyacc driver, whose error recovery shifts `error`, discards a token or aborts (tables-sync/skeleton-sync). (no-rescan) a structural necessary condition of linear time: the code reached from Lex never takes the input or the line table as a whole, a prefix or a suffix of them, and a loop that moves an index over one of them starts at the cursor and has an exit that depends on the element. Not decided: the amortised time bound itself, Go stack depth on deeply nested input, memory.",
 		LevelNote: "Known findings: the new_line action's look-ahead after a CR at end of input (81 generated copies), two scanner stalls (html '<', heredoc '$$'), and the cursor-moving heredoc predicate. Three further index panics found by idx-guard were repaired in /repo.",
 		Technique: "static analysis: SSA effect analysis (buffer writes, guard dominance), linear bound proving over dominating conditions, transition-system reconstruction of the scanner with interval dataflow and replay refinement for progress",
 		Engine:    "scandfa",
-		Explanation: "buf-readonly, cb-guard (SSA); idx-guard (with the call-stack invariant), progress on the reconstructed scanner; pred-pure; nil-in-list, assert-safe (grammar actions); tables-sync / skeleton-sync.",
+		Explanation: "buf-readonly, cb-guard (SSA); idx-guard (with the call-stack invariant), progress on the reconstructed scanner; pred-pure; no-rescan; nil-in-list, assert-safe (grammar actions); tables-sync / skeleton-sync.",
 		Assumptions: []string{"PHPMODE: transition predicates run in machines entered after an open tag, so lex.p >= 2 there (look-behind data[p-1], data[p-2])"},
 		TrustedBase: scanTrusted,
 		Floors: []report.Floor{
@@ -202,10 +203,13 @@ func init() {
 			{Rule: "tables-sync", What: "skeleton-funcs", Min: 16},
 			{Rule: "assert-safe", What: "assertions", Min: 230},
 			{Rule: "idx-guard", What: "stack-writes", Min: 10},
+			{Rule: "no-rescan", What: "file-sized-fields", Min: 2},
+			{Rule: "no-rescan", What: "per-token-functions", Min: 18},
+			{Rule: "no-rescan", What: "loops", Min: 2},
 		},
 		Run: func(c *Ctx) {
 			defer c.cleanup()
-			c.scanRun("idx-guard", "progress")
+			c.scanRun("idx-guard", "progress", "no-rescan")
 			c.ssaScan("buf-readonly", "pred-pure", "cb-guard")
 			c.Fixture("mini", "cb-guard", true, func(p *load.Program, tb *kinds.Table) *report.RuleResult {
 				w, _ := effects.NewWorld(p)
